@@ -49,3 +49,24 @@ Example C03_example :
   = [BRecvOk; BBool true; BBytes (Some [16; 32; 2; 0; 7]%N); BRecvRej true; BBool false;
      BRecvOk; BBool true; BBytes (Some [16; 96; 4; 0; 0; 1; 0]%N); BBool false; BRecvTerm TEnd].
 Proof. vm_compute. reflexivity. Qed.
+
+(* The model IS the code, for the stateful core of the client: Client.Receive and Client.ScanMeasurementData as
+   REGENERATED statement by statement from client.go on this run (Gen/ClientFns.v) agree with the model's receive and
+   scan_md - the state resets, validation before the payload is latched, the error returned with its cause, the packet
+   cursor, the dispatch / decode decisions.  The bufio.Scanner step is the model's (C01); dispatch and the decoders'
+   minimum sizes are the generated tables (C12). *)
+Require Import Base.GoBytes Gen.ClientFns Lib.Bufio Tie.ClientAgree.
+Theorem C03_receive_model_is_the_source : forall c ok s' r',
+  scan (scan_fuel c) (csc c) (crd c) = SR ok s' r' ->
+  (ok = true -> exists t, tok s' = Some t /\ wf_bytes t) ->
+  rmap (fun '(e, st) => (recv_of e, st)) (g_Client_Receive ok (optb (tok s')) (err_code (sc_err s')) (abs c))
+  = Val (fst (receive c), abs (snd (receive c))).
+Proof. exact receive_agrees. Qed.
+Theorem C03_scan_model_is_the_source : forall c, (forall m, cmsg c = Some m -> wf_bytes m) ->
+  let g := g_Client_ScanMeasurementData md_nil md_dec (abs c) in
+  match fst (scan_md c) with
+  | Panic => g = Pan
+  | r => g = Val (match r with Ok b => b | _ => false end, abs (snd (scan_md c)))
+  end.
+Proof. exact scan_md_agrees. Qed.
+Print Assumptions C03_receive_model_is_the_source.
